@@ -61,7 +61,7 @@ def compile_many(jobs, workers=16):
             pass
 
 
-def build_lib(outdir, name, cc, extra, incdir, prefix=None, rename_sections=False):
+def build_lib(outdir, name, cc, extra, incdir, prefix=None, rename_sections=False, link_seam=False):
     """Relocatable link of all library objects -> outdir/<name>.o"""
     od = os.path.join(outdir, name + ".objs")
     shutil.rmtree(od, ignore_errors=True)
@@ -93,7 +93,8 @@ def build_lib(outdir, name, cc, extra, incdir, prefix=None, rename_sections=Fals
         byp = os.path.join(od, "bypass.txt")
         with open(byp, "w") as f:
             for fn in ("malloc", "calloc", "realloc", "free"):
-                f.write("%s h3byp_%s\n" % (fn, fn))
+                # default-configuration builds ("-np"): these ARE the library's heap requests, bound to the seam here
+                f.write("%s %s_%s\n" % (fn, "h3sim" if link_seam else "h3byp", fn))
         run(["objcopy", "--redefine-syms=" + byp, rel])
     if prefix:
         syms = run(["nm", "--defined-only", "-g", rel]).split("\n")
@@ -136,28 +137,38 @@ def build(variant, outdir):
     os.makedirs(outdir, exist_ok=True)
     incdir = os.path.join(outdir, "include")
     gen_header(incdir)
-    cov = variant.startswith("cov")
-    asan = variant.endswith("-asan")
-    omit = variant.endswith("-omit")  # ALWAYS()/NEVER() hard-wired (h3Assert.h H3_OMIT_AUXILIARY_SAFETY_CHECKS): thorough-tier slice
-    tp = variant.endswith("-tp")      # gcc + -fsanitize-coverage=trace-pc: preemption points in code from the shipped compiler
-    prof = variant.endswith("-prof")  # development aid: clang source-based coverage of the simulated copy (tools/srccov.py)
-    dbg = variant.endswith("-dbg")   # same as cov but WITHOUT -DNDEBUG (assert-enabled builds are legitimate deployments)
+    # variant = base ("sim": gcc, "cov": clang + trace-pc-guard) followed by any of the option suffixes
+    parts = variant.split("-")
+    cov = parts[0] == "cov"
+    opts = set(parts[1:])
+    asan = "asan" in opts
+    omit = "omit" in opts   # ALWAYS()/NEVER() hard-wired (h3Assert.h H3_OMIT_AUXILIARY_SAFETY_CHECKS) + _FORTIFY_SOURCE=3: thorough-tier slice
+    tp = "tp" in opts       # gcc + -fsanitize-coverage=trace-pc: preemption points in code from the shipped compiler
+    prof = "prof" in opts   # development aid: clang source-based coverage of the simulated copy (tools/srccov.py)
+    dbg = "dbg" in opts     # WITHOUT -DNDEBUG (assert-enabled builds are legitimate deployments)
+    c99 = "c99" in opts     # strict -std=c99 (the project declares c_std_99): C99 fallbacks of code selected by __STDC_VERSION__
+    noprefix = "np" in opts # the library in its DEFAULT configuration (H3_ALLOC_PREFIX undefined, which is what is shipped):
+                            # the allocator seam is applied at link time instead (malloc/calloc/realloc/free of the library
+                            # objects renamed to the simulated heap), so code under "#ifndef H3_ALLOC_PREFIX" is in the
+                            # simulated copy
     cc = "clang" if (cov or prof) else "gcc"
     san = ["-fsanitize=address,undefined", "-fno-omit-frame-pointer", "-fno-sanitize-recover=undefined"] if asan else []
     if asan and not cov:
         # gcc: keep going after UBSan reports so that they are classified, not fatal mid-run
         san = ["-fsanitize=address,undefined", "-fno-omit-frame-pointer"]
-    simflags = ["-DH3_ALLOC_PREFIX=h3sim_"] + san
+    simflags = ([] if noprefix else ["-DH3_ALLOC_PREFIX=h3sim_"]) + san
     refflags = list(san)
     if dbg:
-        # the assert-enabled slice is also the strict-C99 slice (the project declares c_std_99): code selected by
-        # __STDC_VERSION__ (C11 thread-local storage, atomics) takes its C99 fallback here, its C11 form in the
-        # main builds
-        simflags += ["-UNDEBUG", "-std=c99"]
-        refflags += ["-UNDEBUG", "-std=c99"]
+        simflags += ["-UNDEBUG"]
+        refflags += ["-UNDEBUG"]
+    if c99:
+        simflags += ["-std=c99"]
+        refflags += ["-std=c99"]
     if omit:
-        simflags.append("-DH3_OMIT_AUXILIARY_SAFETY_CHECKS=1")
-        refflags.append("-DH3_OMIT_AUXILIARY_SAFETY_CHECKS=1")
+        # ... and, in the same slice, glibc's strictest fortification: object sizes the compiler derives from
+        # allocator attributes are checked at run time (a wrong alloc_size attribute aborts here)
+        simflags += ["-DH3_OMIT_AUXILIARY_SAFETY_CHECKS=1", "-U_FORTIFY_SOURCE", "-D_FORTIFY_SOURCE=3"]
+        refflags += ["-DH3_OMIT_AUXILIARY_SAFETY_CHECKS=1", "-U_FORTIFY_SOURCE", "-D_FORTIFY_SOURCE=3"]
     if cov:
         simflags += ["-fsanitize-coverage=trace-pc-guard,pc-table", "-fno-pic"]
         refflags += ["-fno-pic"]
@@ -166,7 +177,7 @@ def build(variant, outdir):
     if prof:
         simflags += ["-fprofile-instr-generate", "-fcoverage-mapping"]
     fence = not asan and not prof   # ASan registers globals by section; leave its layout alone
-    lib_sim = build_lib(outdir, "libsim", cc, simflags, incdir, rename_sections=fence)
+    lib_sim = build_lib(outdir, "libsim", cc, simflags, incdir, rename_sections=fence, link_seam=noprefix)
     lib_ref = build_lib(outdir, "libref", cc, refflags, incdir, prefix="ref_")
     # simulator objects (never instrumented with coverage guards)
     cxx = ["g++", "-std=c++17", "-O1", "-g", "-Wall", "-Wno-unused-function", "-I" + SIMDIR, "-I" + incdir]
